@@ -32,7 +32,34 @@ def generate(g, tier):
             else:
                 steps.append(dict(op='compile', compiler=key, opts=opts, dir=f's{s}', src=dict(text=text)))
         cases.append(dict(op='history', steps=steps, meta=dict(family='history', nocorr=True)))
+    cases += revisit_histories(g, count(tier, 40, 400))
     return cases
+
+
+def revisit_histories(g, n):
+    """histories that come back to the SAME place: the same folder and file paths with other contents (imported files, the entry
+    file, config.yaml), the same Compiler object given other options — each step must still equal the same step in a fresh process"""
+    r = g.r
+    out = []
+    for _ in range(n):
+        kind = r.choice(['import-content', 'entry-content', 'config-change', 'config-appears', 'reassign-options', 'mixed'])
+        comp = r.choice(['R', 'R', None])
+        kw = r.choice(['START', 'STARTENV', 'STARTCODE'])
+        steps = []
+        main = f'{kw} lib\nRUN show\nREM note\nALTCHAR 65\nSTRING end' if kw != 'STARTCODE' else f'{kw} lib\nREM note\nALTCHAR 65\nSTRING end'
+        for k in range(r.randint(2, 4)):
+            lib = f'STRING lib-v{k}\nFUNC show\n    STRING shown-v{k}\nVAR made {k}'
+            st = dict(op='compile_file', compiler=comp, opts=dict(include_comments=True), dir='same', file='proj/main.txt',
+                      files={'proj/main.txt': main, 'proj/lib.txt': lib if kind in ('import-content', 'mixed') or k == 0 else f'STRING lib-v0\nFUNC show\n    STRING shown-v0\nVAR made 0'})
+            if kind in ('entry-content', 'mixed'): st['files']['proj/main.txt'] = main + f'\nSTRING round-{k}'
+            if kind in ('config-change', 'mixed'): st['cfgs'] = {'proj': dict(include_comments=(k % 2 == 0), flipper_commands=(k % 3 != 1), stack_limit=20 + k)}
+            if kind == 'config-appears' and k >= 1: st['cfgs'] = {'proj': dict(include_comments=False, flipper_commands=False)}
+            if kind == 'reassign-options' and comp:
+                st['opts'] = dict(include_comments=(k % 2 == 0), flipper_commands=(k != 1), supress_command_not_exist=(k == 2)); st['reassign'] = k > 0
+                st['files']['proj/main.txt'] = main + '\nHOLD x'
+            steps.append(st)
+        out.append(dict(op='history', steps=steps, meta=dict(family='revisit-' + kind, nocorr=True)))
+    return out
 
 
 def oracle(cases, results):
@@ -45,7 +72,7 @@ def oracle(cases, results):
             if c.get('op') == 'history': fs.append(fail(i, f'history did not run: {r}', 'history:broken'))
             continue
         for j, st in enumerate(c['steps']):
-            single = {k: v for k, v in st.items() if k not in ('compiler', 'dir')}
+            single = {k: v for k, v in st.items() if k not in ('compiler', 'dir', 'reassign')}
             singles.append(single); where.append((i, j))
     fresh = impl.run_cases(singles, fresh=True)
     def key(r):
